@@ -32,7 +32,7 @@ RULE = ("cases = seeds of an expression-program generator (depth <= 4) over ints
 ASSUMPTIONS = ["the eager Python evaluation of the same generated program is the reference", "sync scheduler (threads for a fifth)"]
 BUDGET = {"quick": 40, "thorough": 400}
 FLOORS = {"quick": {"evaluations": 3000, "distinct_nontrivial": 2000,
-                    "counters": {"programs_compared": 2500, "pure_key_pairs_checked": 1500, "nout_unpackings": 200,
+                    "counters": {"programs_compared": 2500, "pure_key_pairs_checked": 1500, "pure_form_call": 900, "pure_form_call_overrides_creation": 900, "nout_unpackings": 200,
                                  "key_names_colliding_with_literals": 150, "attr_accesses": 300, "method_calls": 500,
                                  "noncommutative_operator_steps": 400, "reflected_operator_steps": 200}},
           "thorough": {"evaluations": 40000, "distinct_nontrivial": 25000, "counters": {"programs_compared": 35000}}}
@@ -481,15 +481,37 @@ def run_case(case, ctx):
                 args1, args2 = (a1, 1), (a2, 1)
             else:
                 args1, args2 = (a1,), (a2,)
+            # where pure=True is said: when the function is wrapped, at the call, or at the call of a function that was
+            # wrapped with pure=False (the keyword of the call is the more specific statement)
+            form = r.choice(("creation", "creation", "call", "call-overrides-creation"))
+
+            # Calibration: a wrapper made without pure=True has a random key of its own, which is part of every call's
+            # token; "identical calls" therefore means calls of the SAME wrapper object for the call-time forms
+            wrapper = dask.delayed(f) if form == "call" else (dask.delayed(f, pure=False) if form != "creation" else None)
+
+            def pcall(args, kwargs, form=form, f=f, wrapper=wrapper):
+                if form == "creation":
+                    return dask.delayed(f, pure=True)(*args, **kwargs)
+                return wrapper(*args, pure=True, **kwargs)
             try:
-                k1 = dask.delayed(f, pure=True)(*args1, **kw).key
-                k1b = dask.delayed(f, pure=True)(*_copy(args1), **_copy(kw)).key
-                k2 = dask.delayed(f, pure=True)(*args2, **kw).key
-                kk = dask.delayed(f, pure=True)(*args1, **({"b": ("other", 1)} if f is not f_add else {})).key if f is not f_add else None
+                k1 = pcall(args1, kw).key
+                k1b = pcall(_copy(args1), _copy(kw)).key
+                k2 = pcall(args2, kw).key
+                kk = pcall(args1, {"b": ("other", 1)}).key if f is not f_add else None
+                # the converse: an impure call of a function wrapped as pure must NOT be merged with its twin
+                ki1 = dask.delayed(f, pure=True)(*args1, pure=False, **kw).key
+                ki2 = dask.delayed(f, pure=True)(*args1, pure=False, **kw).key
             except Exception as ex:  # noqa: BLE001
                 ctx.exception(ex, prefix="pure-key")
                 continue
             ctx.count("pure_key_pairs_checked")
+            ctx.count("pure_form_" + form.replace("-", "_"))
+            if ki1 == ki2:
+                ctx.violation("pure:call-with-pure=False-on-pure-function:twin-calls-share-key", "key %r twice for args %r" % (ki1, args1))
+            if form != "creation" and (k1 != k1b or (not _same(a1, a2) and k1 == k2)):
+                ctx.violation("pure:pure=True-given-at-%s:%s" % (form, "identical-calls-different-keys" if k1 != k1b else "different-args-same-key"),
+                              "%r / %r / %r for args %r, %r" % (k1, k1b, k2, args1, args2))
+                continue
             if k1 != k1b:
                 ctx.violation("pure:identical-calls-different-keys:arg=%s" % type(a1).__name__, "%r vs %r for args %r" % (k1, k1b, args1))
             if not _same(a1, a2) and k1 == k2:
